@@ -97,7 +97,7 @@ def deductive_records(prop=PROP):
     pairs = pattern_pairs()
     # the loop summary of Unification.__call__ is computed once here (its obligations are recorded by this run) and
     # inherited by the forked workers
-    warm = run_job('unicall', ('b', 'a\\b', 'b , a\\b', None)) if ('b', 'a\\b') in pairs else dict(records=[])
+    warm = engine._worker(('props.c06', 'unicall', ('b', 'a\\b', 'b , a\\b', None))) if ('b', 'a\\b') in pairs else dict(records=[])     # (with the job alarm and error capture)
     parts = engine.run_jobs('props.c06', [('prefixes', p) for p in pairs])
     pre_errors = [f"{r['error']} (job {r['job']})" for r in parts if r.get('error')]
     ujobs = []
@@ -122,6 +122,14 @@ def deductive_records(prop=PROP):
         lib.update(r.get('lib', []))
         inlined.update(r.get('inlined', []))
         paths += r.get('paths', 0)
+    if any('function under contract not found' in e for e in errors):
+        # the contracts of this module form one argument: Unification.__call__ is verified against the contracts of its helpers.  When a helper under
+        # contract no longer exists (the code was restructured), a refuted obligation of the remaining contracts says nothing about the property:
+        # it is undecided unless its counter-model was reproduced on the real code
+        for x in records:
+            if x['verdict'] == 'failed' and not (x.get('replay') or {}).get('reproduced'):
+                x['verdict'] = 'unknown'
+                x['detail'] = 'refuted against an incomplete contract set (a helper under contract was not found): undecided, not a violation'
     if prop != PROP:
         for x in records:
             if x['name'].startswith(PROP + '/'):
